@@ -613,3 +613,100 @@ func Debugf(format string, args ...interface{}) {
 		fmt.Fprintf(os.Stderr, format, args...)
 	}
 }
+
+// ---- vNodes: structural walk of a tree held in interpreter memory ----
+// Returns every non-nil value stored in a field or slice element whose static type is one of
+// the named interface types (and every non-nil pointer of the named pointer-to-struct types),
+// in deterministic pre-order, without descending into fields whose type name is in skip.
+
+func vNodesWalk(root iface, wantIfaces, wantPtrs, skip map[string]bool) []value {
+	var out []value
+	seen := map[*value]bool{}
+	var walk func(v value, t types.Type, depth int)
+	typeName := func(t types.Type) string {
+		if p, ok := t.(*types.Pointer); ok {
+			t = p.Elem()
+		}
+		if n, ok := t.(*types.Named); ok {
+			return n.Obj().Name()
+		}
+		return ""
+	}
+	walk = func(v value, t types.Type, depth int) {
+		if depth > 200 || v == nil {
+			return
+		}
+		if skip[typeName(t)] {
+			return
+		}
+		switch tt := t.Underlying().(type) {
+		case *types.Interface:
+			it, ok := v.(iface)
+			if !ok || it.t == nil {
+				return
+			}
+			if p, isPtr := it.v.(*value); isPtr && p == nil {
+				return
+			}
+			if wantIfaces[typeName(t)] {
+				out = append(out, it)
+			}
+			walk(it.v, it.t, depth+1)
+		case *types.Pointer:
+			p, ok := v.(*value)
+			if !ok || p == nil {
+				return
+			}
+			if wantPtrs[typeName(t)] {
+				out = append(out, iface{t: t, v: p})
+			}
+			if seen[p] {
+				return
+			}
+			seen[p] = true
+			walk(*p, tt.Elem(), depth+1)
+		case *types.Struct:
+			st, ok := v.(structure)
+			if !ok {
+				return
+			}
+			for i := 0; i < tt.NumFields(); i++ {
+				walk(st[i], tt.Field(i).Type(), depth+1)
+			}
+		case *types.Slice:
+			sl, ok := v.([]value)
+			if !ok {
+				return
+			}
+			for _, e := range sl {
+				walk(e, tt.Elem(), depth+1)
+			}
+		case *types.Array:
+			ar, ok := v.(array)
+			if !ok {
+				return
+			}
+			for _, e := range ar {
+				walk(e, tt.Elem(), depth+1)
+			}
+		}
+	}
+	walk(root.v, root.t, 0)
+	return out
+}
+
+func strSet(v value) map[string]bool {
+	m := map[string]bool{}
+	for _, e := range v.([]value) {
+		m[strArg(e)] = true
+	}
+	return m
+}
+
+func init() {
+	intrinsics["vNodes"] = func(fr *frame, args []value) value {
+		root := args[0].(iface)
+		res := vNodesWalk(root, strSet(args[1]), strSet(args[2]), strSet(args[3]))
+		return res
+	}
+}
